@@ -38,9 +38,9 @@ Proof. exact failed_lease_changes_nothing. Qed.
 Print Assumptions C09_failed_call_changes_nothing.
 
 Theorem C09_capacity_figure_never_corrupted : forall c r sh s, sreachable c r sh s ->
-  (sc_gen c = V2 \/ s_recalcs s = 0%nat) -> capacity s = s_reserved s + s_factor s * held s.
+  (sc_gen c = V2 \/ s_recalcs s = 0%nat) -> not_creating s -> capacity s = s_reserved s + s_factor s * held s.
 Proof.
-  intros c r sh s R X. destruct (capinv_reachable c r sh s R) as [_ HC]. unfold capacity. rewrite (HC X). lia.
+  intros c r sh s R X NC. destruct (capinv_reachable c r sh s R) as [_ HC]. unfold capacity. rewrite (HC X NC). lia.
 Qed.
 Print Assumptions C09_capacity_figure_never_corrupted.
 
